@@ -18,7 +18,7 @@ type C02Case struct {
 
 func runEngineOpts(ct c2.ClipType, fr c2.FillRule, subj, clip Paths, pc, rev bool) (sol Paths, evs []c2.VerifEvent) {
 	c2.VerifStartRecording()
-	defer func() { evs = c2.VerifStopRecording() }()
+	defer func() { evs = stopRecording() }()
 	c := c2.NewClipper64()
 	c2.VerifSetOptions64(c, pc, rev)
 	c.AddPaths(subj, c2.Subject, false)
@@ -49,8 +49,8 @@ func canonicalPaths(sol Paths) *Violation {
 
 // windingCanonical checks that the winding number of the whole solution is 0 or sign at
 // every probe farther than the band from every solution edge.
-func windingCanonical(prop string, sol Paths, sign int, probes []P, evs []c2.VerifEvent) (*Violation, int, int) {
-	judged, att := 0, 0
+func windingCanonical(prop string, sol Paths, sign int, probes []P, evs []c2.VerifEvent, inputs Paths) (*Violation, int, int) {
+	judged, att, cache := 0, 0, 0
 	for _, q := range probes {
 		if !kit.FarFrom(q, sol, true, band) {
 			continue
@@ -60,7 +60,7 @@ func windingCanonical(prop string, sol Paths, sign int, probes []P, evs []c2.Ver
 		if w == 0 || w == sign {
 			continue
 		}
-		if k := attribute(q, evs); k != "" && kfActive(prop, kfKeyForEvent(k)) {
+		if engineExcuse(prop, q, evs, inputs, &cache) {
 			att++
 			continue
 		}
@@ -79,7 +79,12 @@ func judgeC02(c *C02Case, cx *Ctx) *Violation {
 		sign = -1
 	}
 	probes := kit.Probes([]Paths{sol, c.Subj, c.Clip}, kit.ProbeOpt{Closed: true, Extra: c.Extra})
-	v, judged, att := windingCanonical("C02", sol, sign, probes, evs)
+	inputs := append(append(Paths{}, c.Subj...), c.Clip...)
+	domain := "domain:strict"
+	if in, why := kit.NearDegenerate([]Paths{inputs}, true, nearTol); in {
+		domain = "domain:near-degenerate(" + why + ")"
+	}
+	v, judged, att := windingCanonical("C02", sol, sign, probes, evs, inputs)
 	if v != nil {
 		return v
 	}
@@ -101,8 +106,7 @@ func judgeC02(c *C02Case, cx *Ctx) *Violation {
 	// inputs; here the two runs are compared with each other, events pooled)
 	ref, evs2 := runEngineOpts(c.CT, c.FR, c.Subj, c.Clip, true, false)
 	pooled := append(append([]c2.VerifEvent{}, evs...), evs2...)
-	inputs := append(append(Paths{}, c.Subj...), c.Clip...)
-	cmpJudged := 0
+	cmpJudged, cacheIn := 0, 0
 	for _, q := range probes {
 		if !kit.FarFrom(q, inputs, true, band) {
 			continue
@@ -113,7 +117,7 @@ func judgeC02(c *C02Case, cx *Ctx) *Violation {
 		if on1 || on2 || (w1 != 0) == (w2 != 0) {
 			continue // (a solution edge far from every input edge is C01's business, not a difference between options)
 		}
-		if k := attribute(q, pooled); k != "" && kfActive("C02", kfKeyForEvent(k)) {
+		if engineExcuse("C02", q, pooled, inputs, &cacheIn) {
 			att++
 			continue
 		}
@@ -137,7 +141,8 @@ func judgeC02(c *C02Case, cx *Ctx) *Violation {
 
 	// re-uniting a solution with itself changes nothing outside the band around its edges
 	re, evs3 := runBoolean(0, c2.Union, c2.NonZero, sol, nil)
-	reJudged := 0
+	reJudged, cacheRe := 0, 0
+	reRaw := append(append(Paths{}, inputs...), sol...) // the re-union's own input is the solution
 	for _, q := range probes {
 		if !kit.FarFrom(q, sol, true, band) {
 			continue
@@ -148,7 +153,7 @@ func judgeC02(c *C02Case, cx *Ctx) *Violation {
 		if !on2 && (w1 != 0) == (w2 != 0) {
 			continue
 		}
-		if k := attribute(q, evs3); k != "" && kfActive("C02", kfKeyForEvent(k)) {
+		if engineExcuse("C02", q, evs3, reRaw, &cacheRe) {
 			att++
 			continue
 		}
@@ -167,11 +172,11 @@ func judgeC02(c *C02Case, cx *Ctx) *Violation {
 	if holes > 0 {
 		hl = "holes:1+"
 	}
-	cx.St.Eval(c, nontrivial, c.Fam.Label(), lbl, hl, boolLabel("pc", c.PreserveCollinear), boolLabel("rev", c.Reverse), "op:"+ctName(c.CT)+"/"+frName(c.FR))
+	cx.St.Eval(c, nontrivial, c.Fam.Label(), domain, lbl, hl, boolLabel("pc", c.PreserveCollinear), boolLabel("rev", c.Reverse), "op:"+ctName(c.CT)+"/"+frName(c.FR))
 	cx.St.Count("probes_judged_winding", int64(judged))
 	cx.St.Count("probes_judged_option_compare", int64(cmpJudged))
 	cx.St.Count("probes_judged_reunion", int64(reJudged))
-	cx.St.Count("mismatch_attributed_to_listed_callsite", int64(att))
+	cx.St.Count("mismatch_attributed_to_listed_finding", int64(att))
 	return nil
 }
 
